@@ -6,6 +6,7 @@ package main
 import (
 	"fmt"
 	"go/token"
+	"strings"
 
 	"golang.org/x/tools/go/ssa"
 )
@@ -250,6 +251,20 @@ func ruleSelf(c *Ctx) {
 						case f != nil && f.Signature.Recv() != nil && len(x.Call.Args) > 0 && x.Call.Args[0] == v && (f.Name() == "equal" || f.Name() == "isNull"):
 						default:
 							badUse = fmt.Sprintf("%s passes the node for the live container to %s at %s: inserted, it would alias the container or make the document contain itself", fname(fn), calleeLabel(&x.Call), b.posOf(x))
+						}
+					case *ssa.MakeInterface:
+						// handed to the encoder (which reads it) and to nothing else
+						for _, r2 := range *x.Referrers() {
+							switch y := r2.(type) {
+							case *ssa.DebugRef:
+							case *ssa.Call:
+								if g := y.Call.StaticCallee(); g != nil && b.Codec != nil && g.Pkg == b.Codec && strings.HasPrefix(g.Name(), "Marshal") {
+									continue
+								}
+								badUse = fmt.Sprintf("%s passes the node for the live container to %s at %s", fname(fn), calleeLabel(&y.Call), b.posOf(y))
+							default:
+								badUse = fmt.Sprintf("%s: the node for the live container escapes (%T at %s)", fname(fn), y, b.posOf(r2))
+							}
 						}
 					default:
 						badUse = fmt.Sprintf("%s: the node for the live container escapes (%T at %s)", fname(fn), x, b.posOf(r))
